@@ -68,7 +68,7 @@ def make_extreme_program(rng, T0, horizon):
     T0 = float(T0)
     u = rng.random()
     if u < 0.4:                         # linear, reaching 1..30 K at the end
-        return pv.TemperatureProgram(coefficients=[T0, -(T0 - rng.uniform(1.0, 30.0)) / h], type="polynomial")
+        return pv.TemperatureProgram(coefficients=[T0, -(T0 - gen.logu(rng, 0.3, 30.0)) / h], type="polynomial")
     if u < 0.7:                         # exponential that overflows to +inf before the end
         return pv.TemperatureProgram(coefficients=[T0, 0.0, rng.uniform(750.0, 3000.0) / h], type="exponential")
     if u < 0.85:                        # logarithm of an argument that turns negative (NaN)
@@ -412,6 +412,9 @@ def record_job(job):
             sc["extreme"] = True
             if sc["kind"].endswith("noniso") and rng.random() < 0.7:
                 sc["want_prog"], sc["extreme_prog"] = True, True
+            if sc["kind"].startswith("ideal") and rng.random() < 0.15:
+                for e in sc["membrane"].ideal_experiments.experiments:      # an impermeable membrane: both fluxes exactly 0
+                    e.permeance = pv.Permeance(0.0)
             if sc["mode"] == "temp":
                 sc["Tperm"] = float(sc["T0"]) + rng.uniform(-10.0, 30.0)
             elif sc["mode"] == "press":
